@@ -401,7 +401,11 @@ func C17Dump(v reflect.Value) any {
 // pointer, the same map, or the same backing array of a non-empty slice reached twice.  A decoder
 // must give every position its own cell (mutating one decoded element must not change another).
 // Pointers to zero-size values are ignored (the runtime may give them one address).
-func C17Shared(v reflect.Value) bool {
+func C17Shared(v reflect.Value) bool { return C17SharedAmong(v) }
+
+// C17SharedAmong: the same, over several decoded values together (two configurations loaded one after
+// the other must not share a default list, a cached map, a pooled cell ...).
+func C17SharedAmong(vs ...reflect.Value) bool {
 	type cell struct {
 		p uintptr
 		t reflect.Type
@@ -467,5 +471,10 @@ func C17Shared(v reflect.Value) bool {
 		}
 		return false
 	}
-	return walk(v)
+	for _, v := range vs {
+		if walk(v) {
+			return true
+		}
+	}
+	return false
 }
